@@ -25,7 +25,7 @@ func init() {
 		ID:    "C04",
 		Level: "model_checking",
 		Rule: "product: amounts {1,2,2^64-1,2^64,2^64+1,2^128,2^255,2^256-1 on a fresh supply} x 5 mint recipients (32 distinct bytes, leading-zero address, non-zero high bytes) x 2 (domain, burn token) x local denom stored as uusdc / uUSDC / a denom the factory does not mint x caller zero/submitter, " +
-			"each judged on the recorded Mint request, bank balances/supply and both events; BFS (depth 4 quick / 5 thorough, sharded by first action) over 3 burn receives, plain and failing receives and one transaction of every other type " +
+			"each judged on the recorded Mint request, bank balances/supply and both events; BFS (depth 4 quick / 6 thorough, sharded by first action) over 3 burn receives, plain and failing receives and one transaction of every other type " +
 			"with 'supply minted == sum over distinct accepted burn messages' in every state; distinct_nontrivial = distinct (case) in the product + distinct (minted-set, transaction kind, outcome) in the BFS",
 		Assumptions: []string{"histories whose cumulative mint would overflow the bank's 256-bit supply are outside the alphabet"},
 		Jobs:        c04Jobs,
@@ -50,7 +50,7 @@ func c04Jobs(tier string) []Job {
 	}
 	depth := 4
 	if tier == "thorough" {
-		depth = 5
+		depth = 6
 	}
 	for sh := 0; sh < c04Shards; sh++ {
 		sh := sh
